@@ -207,7 +207,7 @@ def snapshot (s : State) : List String :=
   let wl := workers.map fun w =>
     let a := match w.assign with
       | .sn assigned free pre => s!"sn a={showTids (sortTids assigned)} f={showNatList free} p={showTids (sortTids pre)}"
-      | .mn t root => s!"mn {showTid t} {if root then 1 else 0}"
+      | .mn t root st => s!"mn {showTid t} {if root then 1 else 0} {if st then 1 else 0}"
     let blocked := sortBy (fun (a b : Nat × Nat) => a.1 < b.1 || (a.1 == b.1 && a.2 < b.2)) w.blocked
     s!"out w {w.id} {a} tot={showNatList w.total} b={showList (fun (p : Nat × Nat) => s!"{p.1}.{p.2}") blocked} g={w.group} s={if w.stopping then 1 else 0}"
   let ql := (List.range s.queues.length).filterMap fun i =>
